@@ -183,6 +183,12 @@ func VerifC09_PluginSchema() {
 	scope := func(id string, t Type) *ScopeSchema {
 		return NewScopeSchema(NewObjectSchema(id, map[string]*PropertySchema{"v": NewPropertySchema(t, nil, true, nil, nil, nil, nil, nil)}))
 	}
+	refScope := func(id string) *ScopeSchema {
+		return NewScopeSchema(
+			NewObjectSchema(id, map[string]*PropertySchema{"leaf": NewPropertySchema(NewRefSchema(id+"Leaf", nil), nil, true, nil, nil, nil, nil, nil)}),
+			NewObjectSchema(id+"Leaf", map[string]*PropertySchema{"v": NewPropertySchema(NewIntSchema(omin, nil, nil), nil, true, nil, nil, nil, nil, nil)}),
+		)
+	}
 	step := NewCallableStepWithSignals[*int, map[string]any](
 		"s", scope("In", NewIntSchema(verifOptInt64("imin"), nil, nil)),
 		map[string]*StepOutputSchema{
@@ -191,8 +197,13 @@ func VerifC09_PluginSchema() {
 		},
 		map[string]CallableSignal{
 			"sig": NewCallableSignal[*int, map[string]any]("sig", scope("Sig", NewBoolSchema()), nil, func(ctx context.Context, d *int, in map[string]any) {}),
+			// a signal whose data scope uses a reference, as any non-trivial scope does
+			"refsig": NewCallableSignal[*int, map[string]any]("refsig", refScope("RSig"), nil, func(ctx context.Context, d *int, in map[string]any) {}),
 		},
-		map[string]*SignalSchema{"emit": NewSignalSchema("emit", scope("Emit", NewFloatSchema(nil, nil, nil)), nil)},
+		map[string]*SignalSchema{
+			"emit":    NewSignalSchema("emit", scope("Emit", NewFloatSchema(nil, nil, nil)), nil),
+			"refemit": NewSignalSchema("refemit", refScope("REmit"), nil),
+		},
 		NewDisplayValue(verifStrPtr("Step"), nil, nil),
 		func() *int { return nil },
 		func(ctx context.Context, d *int, in map[string]any) (string, any) { return "ok", in },
@@ -215,7 +226,7 @@ func VerifC09_PluginSchema() {
 	d2, err2 := s2.SelfSerialize()
 	verifAssert("C09/plugin/fixed-point", err2 == nil && verifDeepEqual(d, d2))
 	st := s2.StepsValue["s"]
-	verifAssert("C09/plugin/step-present", st != nil && len(st.OutputsValue) == 2 && len(st.SignalHandlersValue) == 1 && len(st.SignalEmittersValue) == 1)
+	verifAssert("C09/plugin/step-present", st != nil && len(st.OutputsValue) == 2 && len(st.SignalHandlersValue) == 2 && len(st.SignalEmittersValue) == 2)
 	if st != nil {
 		v := nondetInt64("v")
 		in := map[string]any{"v": v}
@@ -229,6 +240,13 @@ func VerifC09_PluginSchema() {
 		_, g1 := step.SignalHandlers()["sig"].DataSchema().Unserialize(verifClone(sig))
 		_, g2 := st.SignalHandlersValue["sig"].DataSchemaValue.Unserialize(verifClone(sig))
 		verifAssert("C09/plugin/signal-same-verdict", (g1 == nil) == (g2 == nil))
+		rsig := map[string]any{"leaf": map[string]any{"v": nondetInt64("rv")}}
+		_, h1 := step.SignalHandlers()["refsig"].DataSchema().Unserialize(verifClone(rsig))
+		_, h2 := st.SignalHandlersValue["refsig"].DataSchemaValue.Unserialize(verifClone(rsig))
+		verifAssert("C09/plugin/signal-with-reference-same-verdict", (h1 == nil) == (h2 == nil))
+		_, k1 := step.SignalEmitters()["refemit"].DataSchema().Unserialize(verifClone(rsig))
+		_, k2 := st.SignalEmittersValue["refemit"].DataSchemaValue.Unserialize(verifClone(rsig))
+		verifAssert("C09/plugin/emitted-signal-with-reference-same-verdict", (k1 == nil) == (k2 == nil))
 	}
 	verifReach("C09/plugin/end")
 }
